@@ -57,17 +57,19 @@ def run_check(prop, tier, seed, replay=None):
         traces = ts + tc
         accepted, rej = C.validate_traces(traces, 'ChanDiscipline', {prop}, TMPL, work, keep_events=KEEP)
         byname = {s['name']: s for s in srv + cli}
-        violations = []
-        for r in rej[:4]:
-            name = r['trace'][0]['scn']; sc = byname[name]; f = fam[name]
-            w2 = os.path.join(work, 're_' + re.sub(r'\W', '_', name)); os.makedirs(w2, exist_ok=True)
-            tr2, _ = C.run_scenarios(bs if f == 'srv' else bc, [sc], w2, nworkers=1)
-            _, rej2 = C.validate_traces(tr2, 'ChanDiscipline', {prop}, TMPL, w2, keep_events=KEEP)
-            if rej2:
-                path = C.save_replay(prop, name, dict(property=prop, family=f, scenario=sc, rejected_at=rej2[0]['at'], event=rej2[0]['event'], trace=rej2[0]['trace']))
-                violations.append((name, path, rej2[0]))
-            else:
-                raise C.ToolError('rejection of %s did not reproduce' % name)
+        # The monitor's facts (a begin event of one operation between the begin and end events of another, logged inside
+        # the channel methods under one recorder lock) are sound on the recorded trace itself; after a probe the order in
+        # which mutex waiters proceed is up to the runtime, so a re-execution may take another path.  A rejection that
+        # does not reproduce is therefore still reported, with the recorded trace as its replay file.
+        recorded = []
+        try:
+            violations, anomalies = C.confirm_rejections(prop, rej, lambda n: byname[n], lambda sc, w: C.run_scenarios(bs if fam[sc['name']] == 'srv' else bc, [sc], w, nworkers=1)[0], 'ChanDiscipline', TMPL, work, keep_events=KEEP, extra=lambda name: dict(family=fam[name]))
+        except C.ToolError:
+            violations = []
+            for r in rej[:4]:
+                name = r['trace'][0]['scn']
+                path = C.save_replay(prop, name + '_recorded', dict(property=prop, family=fam[name], scenario=byname[name], rejected_at=r['at'], event=r['event'], trace=r['trace'], note='recorded trace; re-execution took another path'))
+                violations.append((name, path, r))
         probes = sum(t[0].get('st_probes', 0) for t in traces)
         sends = sum(1 for t in traces for e in t if e['ev'] == 'Send')
         cov = dict(states=sum(d['states'] for d in design) or 1, transitions=sum(d['transitions'] for d in design) or 1, design_runs=design,
